@@ -121,6 +121,18 @@ func fmtValue(fr *frame, a value, verb byte, strict bool) value {
 		}
 		return x
 	case sym:
+		if (verb == 'd' || verb == 'v') && x.k.isInt() {
+			if !strict {
+				return "<sym>"
+			}
+			return fr.i.symFormatInt(x)
+		}
+		if verb == 'v' && x.k == kBool && strict {
+			if fr.i.ps.decide(x) {
+				return "true"
+			}
+			return "false"
+		}
 		if strict {
 			panic(unsupportedAbort{"formatting a symbolic scalar with %" + string(verb)})
 		}
@@ -962,3 +974,72 @@ func bothInt64(a, b value) bool {
 }
 
 var _ = sort.Ints
+
+// symFormatInt renders a symbolic integer in decimal: the sign and the number of
+// digits are decided (case split), each digit is a term.
+func (i *interpreter) symFormatInt(x sym) value {
+	signed := x.k.signed()
+	v := x
+	if x.k.width() != 64 {
+		if signed {
+			v = i.symConv(kI64, x).(sym)
+		} else {
+			v = i.symConv(kU64, x).(sym)
+		}
+	}
+	u := v.t
+	neg := false
+	if signed {
+		if i.ps.decide(sym{kBool, "(bvslt " + u + " #x0000000000000000)"}) {
+			neg = true
+			u = i.ps.name(sym{kU64, "(bvneg " + u + ")"}).(sym).t
+		}
+	}
+	n := 20
+	p := uint64(10)
+	for d := 1; d <= 19; d++ {
+		if i.ps.decide(sym{kBool, "(bvult " + u + " " + bvLit(p, 64) + ")"}) {
+			n = d
+			break
+		}
+		p *= 10
+	}
+	digits := make([]value, 0, n+1)
+	if neg {
+		digits = append(digits, uint8('-'))
+	}
+	pow := make([]uint64, n)
+	pp := uint64(1)
+	for k := 0; k < n; k++ {
+		pow[k] = pp
+		pp *= 10
+	}
+	for k := n - 1; k >= 0; k-- {
+		q := u
+		if pow[k] != 1 {
+			q = "(bvudiv " + u + " " + bvLit(pow[k], 64) + ")"
+		}
+		t := "(bvadd ((_ extract 7 0) (bvurem " + q + " #x000000000000000a)) #x30)"
+		digits = append(digits, i.ps.name(sym{kU8, t}))
+	}
+	return mkStr(digits)
+}
+
+func init() {
+	itoa := func(fr *frame, a []value) value {
+		if s, ok := a[0].(sym); ok {
+			return fr.i.symFormatInt(s)
+		}
+		return strconv.FormatInt(asInt64(a[0]), 10)
+	}
+	externals["strconv.Itoa"] = itoa
+	externals["strconv.FormatInt"] = func(fr *frame, a []value) value {
+		if b := asInt64(a[1]); b != 10 {
+			if _, ok := a[0].(sym); ok {
+				panic(unsupportedAbort{"FormatInt of symbolic value in base != 10"})
+			}
+			return strconv.FormatInt(asInt64(a[0]), int(b))
+		}
+		return itoa(fr, a)
+	}
+}
